@@ -879,6 +879,27 @@ func (r *vcRun) apply(op []json.RawMessage) []interface{} {
 		}
 		r.nextTag++
 		return []interface{}{"tagadd", name}
+	case "reftag":
+		// a tag whose definition REFERENCES the mark tag: mark edits make it uncertain through inheritTagUncertainty
+		if r.lastSt == nil {
+			return nil
+		}
+		hasMark, hasRef := false, false
+		for _, n := range r.lastSt.TagN {
+			hasMark = hasMark || n == "mark/m"
+			hasRef = hasRef || n == "tag/ref"
+		}
+		if !hasMark || hasRef {
+			return nil
+		}
+		def := "mark:m"
+		if vcArgInt(op, 1)%2 == 1 {
+			def = "-mark:m sport:4321"
+		}
+		if err := r.mgr.AddTag("tag/ref", "yellow", def); err != nil {
+			panic(err)
+		}
+		return []interface{}{"tagadd", "tag/ref"}
 	case "markadd", "markdel":
 		// edits of the mark tag mark/m: the stream id is taken among the existing streams, so Set/Unset stay inside the
 		// words the bitmask already has (the case in which a shared bitmask would change under an open view)
